@@ -9,6 +9,7 @@ import GomlVerif.Driver.C19
 import GomlVerif.Driver.C13
 import GomlVerif.Driver.C16
 import GomlVerif.Driver.C07
+import GomlVerif.Driver.C03
 
 def main (args : List String) : IO UInt32 := do
   match args with
@@ -24,4 +25,5 @@ def main (args : List String) : IO UInt32 := do
   | ["c13"] => Goml.Driver.C13.main; return 0
   | ["c16"] => Goml.Driver.C16.main; return 0
   | ["c07"] => Goml.Driver.C07.main; return 0
+  | ["c03"] => Goml.Driver.C03.main; return 0
   | _ => IO.eprintln "usage: gomlmodel <c05|…> < lines"; return 2
